@@ -429,6 +429,18 @@ pub fn expect(ctx: &Ctx, rep: &mut Report) {
           made += 1;
           let s = ALL_S[(fi + made) % 5].name();
           qs.push(json!({"pattern": cut.pattern, "strictness": s}));
+          // the same pattern with one lower-case word upper-cased: in grammars with case-insensitive
+          // keywords (PHP `ECHO`) the pattern still matches although its literal text is not in the file
+          {
+            let re = regex::Regex::new(r"(^|[^$A-Za-z0-9_])([a-z]{2,})\b").unwrap();
+            let words: Vec<(usize, usize)> = re.captures_iter(&cut.pattern).map(|c| (c.get(2).unwrap().start(), c.get(2).unwrap().end())).collect();
+            for (a, b) in words.into_iter().take(3) {
+              let flipped = format!("{}{}{}", &cut.pattern[..a], cut.pattern[a..b].to_uppercase(), &cut.pattern[b..]);
+              if Pattern::try_new(&flipped, lang).is_ok() {
+                qs.push(json!({"pattern": flipped, "strictness": s}));
+              }
+            }
+          }
           if made == 1 {
             if let Some(sel) = node.dfs().skip(1).find(|d| d.is_named()) {
               let selector = sel.kind().to_string();
